@@ -42,7 +42,10 @@ def run_case(case):
     for a, b in zip(got, got[1:]):
         if not a[0] < b[0]:
             raise Violation('clock not strictly increasing: %s then %s' % (a, b))
-    # a second iteration gives the same events (the engine is re-iterable state-free)
+    # a second iteration of the same engine object gives the same events
+    again = [(e.ts, e.event_type) for e in eng]
+    if again != got:
+        raise Violation('iterating the same engine twice gives %d then %d events' % (len(got), len(again)))
     cls = gen.range_classes(case['start'], case['end'])
     cls.append('flags_%d%d' % (case['pre'], case['post']))
     nt = any(c in cls for c in ('spans_weekend', 'single_day', 'no_business_day', 'crosses_month',
